@@ -34,7 +34,7 @@ if [ "$R" = "ok" ] || [ "$R" = "ok vet-complains" ]; then
 import json,sys,subprocess
 d,name,pkg,run,extra=sys.argv[1:6]
 head=subprocess.run(["git","-C","/repo","rev-parse","--short","HEAD"],capture_output=True,text=True).stdout.strip()
-meta={"name":name,"property":name.split("-")[0],"origin":"independent sub-agent given only the property text and a scratch worktree",
+meta={"name":name,"property":[x for x in name.split("-") if x[:1]=="C" and x[1:].isdigit()][0] if any(x[:1]=="C" and x[1:].isdigit() for x in name.split("-")) else name.split("-")[0],"origin":"independent sub-agent given only the property text and a scratch worktree",
  "repo_head":head,"demo":{"file":"zz_demo_test.go","package_dir":pkg,"command":"go test -count=1 %s -run '%s' ./%s/"%(extra,run,pkg)},
  "confirmed":{"builds_both_configs":True,"existing_suite_passes_both_configs":True,"demo_passes_on_clean_tree":True,"demo_fails_with_mutant":True,
    "how":"scripts/verify_seed.sh in a scratch worktree of /repo HEAD (removed afterwards)"},
